@@ -162,7 +162,26 @@ def session_cases(tier, pal):
                 for fmt in IMAGE_FMTS:
                     inner = dict(kind='image', fmt=fmt, shape=list(shape), cols=cols, sel=sel, pal=pal)
                     out.append(dict(kind='session', inner=inner))
+    # the same file read as SEVERAL datasets (one per stored array / HDU: factory option auto_merge=False):
+    # the session then refers to one file for several datasets
+    for cols in ('fi', 'if', 'fis') if tier == 'quick' else ('fi', 'if', 'fis', 'sif', 'ffi'):
+        inner = dict(kind='table', fmt='hdf5-table', cols=cols, derived=0, nrow=3, sel='whole', loader='auto',
+                     components=None, pal=pal)
+        out.append(dict(kind='session', inner=inner, split=True))
+    for shape in ([(2, 3)] if tier == 'quick' else [(2, 3), (2, 2, 2)]):
+        for fmt in IMAGE_FMTS:
+            inner = dict(kind='image', fmt=fmt, shape=list(shape), cols='fi', sel='whole', pal=pal)
+            out.append(dict(kind='session', inner=inner, split=True))
     return out
+
+
+def split_load(path, fmt):
+    from glue.core.data_factories import load_data
+    if fmt.startswith('hdf5'):
+        from glue.core.data_factories.hdf5 import hdf5_reader as reader
+    else:
+        from glue.core.data_factories.fits import fits_reader as reader
+    return load_data(path, factory=reader, auto_merge=False)
 
 
 def all_cases(tier):
@@ -343,6 +362,10 @@ def run_session(c, tmp, tag):
     if back is None or (isinstance(back, list) and not back):
         return None         # the direct load already fails; reported by the table/image case
     first = back if isinstance(back, list) else [back]
+    if c.get('split'):
+        fk += '|split'
+        first = split_load(path, inner['fmt'])
+        first = first if isinstance(first, list) else [first]
     dc = DataCollection(first)
     try:
         text = GlueSerializer(dc).dumps()
